@@ -236,7 +236,7 @@ def _model(case, ctx, d):
     rng = np.random.default_rng(case['seed'])
     dt = RDT[int(rng.integers(0, 2))]
     n_samples = int(rng.integers(30, 120))
-    chunk = int([7, 13, 29, n_samples, 4 * n_samples][int(rng.integers(0, 5))])
+    chunk = int([2, 7, 13, 29, n_samples, 4 * n_samples][int(rng.integers(0, 6))])   # 2 -> more than 20 chunks
     spec = random_spec(rng, raw=dt, raw_parts=int(rng.integers(1, 4)), n_samples=n_samples, rate=chunk / 600.,
                        dtype_times=['uint64', 'int64', 'uint32', 'int32'][int(rng.integers(0, 4))],
                        ns=int(rng.integers(8, 30)), shanks=[0, 2][int(rng.integers(0, 2))])
